@@ -239,7 +239,22 @@ func registerMath(e *Engine) {
 		if c, ok := b.T.ConstInt(); ok {
 			return VStr{StrC(c.String())}
 		}
-		return VStr{p.opaqueString()}
+		return VStr{p.intToStrDecided(b.T)}
+	}
+	in[I+"ModRaw"] = func(p *Path, a []Value) Value {
+		x, y := p.nonNil(big_(a[0]), "ModRaw"), tInt(a[1])
+		if !p.Decide(Not(Eq(y, IntC64(0)))) {
+			p.goPanicf("division by zero")
+		}
+		// big.Int.Mod: Euclidean modulus (result >= 0)
+		return VBig{T: Mod(x, y)}
+	}
+	in[I+"Mod"] = func(p *Path, a []Value) Value {
+		x, y := p.nonNil(big_(a[0]), "Mod"), p.nonNil(big_(a[1]), "Mod")
+		if !p.Decide(Not(Eq(y, IntC64(0)))) {
+			p.goPanicf("division by zero")
+		}
+		return VBig{T: Mod(x, y)}
 	}
 	in[I+"BigInt"] = func(p *Path, a []Value) Value {
 		if big_(a[0]).Nil {
@@ -294,7 +309,27 @@ func registerMath(e *Engine) {
 	in[M+"LegacyNewDecFromStr"] = func(p *Path, a []Value) Value {
 		s, ok := tStr(a[0]).ConstStr()
 		if !ok {
-			panic(engErr("NewDecFromStr on symbolic string"))
+			// character-level decimal parsing is SDK code outside every claim: a symbolic string
+			// parses iff decStrOK(s), to the 18-decimal raw value decRawOfStr(s) (uninterpreted,
+			// so two parses of the same string agree), within the 315-bit range of LegacyDec
+			st := tStr(a[0])
+			if st.op == "str.from_int" && len(st.args) == 1 {
+				// the canonical decimal rendering of a non-negative integer n parses to n
+				n := st.args[0]
+				if p.Decide(Ge(n, IntC64(0))) {
+					raw := Mul(n, IntC(ten18))
+					if !p.Decide(Lt(raw, IntC(decMaxB))) {
+						return tuple(VDec{Nil: true}, p.eng.errVal("math/dec", "decimal out of range"))
+					}
+					return tuple(VDec{T: raw}, nilErr)
+				}
+			}
+			if !p.Decide(App("decStrOK", SBool, st)) {
+				return tuple(VDec{Nil: true}, p.eng.errVal("math/dec", "invalid decimal"))
+			}
+			raw := App("decRawOfStr", SInt, st)
+			p.Assume(And(Lt(raw, IntC(decMaxB)), Gt(raw, IntC(new(big.Int).Neg(decMaxB)))))
+			return tuple(VDec{T: raw}, nilErr)
 		}
 		r, ok := new(big.Rat).SetString(s)
 		if !ok {
@@ -468,4 +503,103 @@ func clampRange(x *Term, ty IntTy) *Term {
 	}
 	return &Term{op: x.op, sort: x.sort, args: x.args, iv: x.iv, name: x.name, size: x.size,
 		lo: maxB(ty.Min(), orB(x.lo, ty.Min())), hi: minB(ty.Max(), orB(x.hi, ty.Max())), byteSrc: x.byteSrc, byteIdx: x.byteIdx}
+}
+
+// intToStr: decimal rendering of an integer as an SMT string term ("-" prefix for negatives).
+func intToStr(t *Term) *Term {
+	if c, ok := t.ConstInt(); ok {
+		return StrC(c.String())
+	}
+	pos := mk("str.from_int", SStr, t)
+	if t.lo != nil && t.lo.Sign() >= 0 {
+		return pos
+	}
+	return Ite(Lt(t, IntC64(0)), StrConcat(StrC("-"), mk("str.from_int", SStr, Neg(t))), pos)
+}
+
+// padLeftZeros: %0Nd of a value known (by the caller's check) to lie in [0, 10^N).
+func padLeftZeros(t *Term, n int) *Term {
+	if c, ok := t.ConstInt(); ok && c.Sign() >= 0 {
+		s := c.String()
+		for len(s) < n {
+			s = "0" + s
+		}
+		return StrC(s)
+	}
+	p10 := new(big.Int).Exp(bi(10), bi(int64(n)), nil)
+	// the last n digits of 10^n + t
+	return mk("str.substr", SStr, mk("str.from_int", SStr, Add(IntC(p10), t)), IntC64(1), IntC64(int64(n)))
+}
+
+// intToStrDecided: like intToStr but settles the sign with the path condition first, so that the
+// result is a plain str.from_int term whenever the value is known to be non-negative.
+func (p *Path) intToStrDecided(t *Term) *Term {
+	if _, ok := t.ConstInt(); ok {
+		return intToStr(t)
+	}
+	if p.Decide(Ge(t, IntC64(0))) {
+		return mk("str.from_int", SStr, t)
+	}
+	return StrConcat(StrC("-"), mk("str.from_int", SStr, Neg(t)))
+}
+
+// ---------- structural string equality (a sufficient condition, used as an extra disjunct) ----------
+
+func flattenConcat(t *Term, out *[]*Term) {
+	if t.op == "str.++" {
+		for _, a := range t.args {
+			flattenConcat(a, out)
+		}
+		return
+	}
+	if s, ok := t.ConstStr(); ok && s == "" {
+		return
+	}
+	*out = append(*out, t)
+}
+
+// strEqStructural returns a formula that IMPLIES a = b, obtained by matching the two strings part
+// by part (decimal renderings of non-negative integers are equal iff the integers are), or nil.
+func strEqStructural(a, b *Term) *Term {
+	var pa, pb []*Term
+	flattenConcat(a, &pa)
+	flattenConcat(b, &pb)
+	// merge adjacent constants
+	merge := func(ps []*Term) []*Term {
+		var out []*Term
+		for _, p := range ps {
+			if c, ok := p.ConstStr(); ok && len(out) > 0 {
+				if d, ok2 := out[len(out)-1].ConstStr(); ok2 {
+					out[len(out)-1] = StrC(d + c)
+					continue
+				}
+			}
+			out = append(out, p)
+		}
+		return out
+	}
+	pa, pb = merge(pa), merge(pb)
+	if len(pa) != len(pb) || len(pa) == 0 {
+		return nil
+	}
+	var cs []*Term
+	for i := range pa {
+		x, y := pa[i], pb[i]
+		cx, okx := x.ConstStr()
+		cy, oky := y.ConstStr()
+		switch {
+		case okx && oky:
+			if cx != cy {
+				return nil
+			}
+		case x.op == "str.from_int" && y.op == "str.from_int":
+			cs = append(cs, Ge(x.args[0], IntC64(0)), Ge(y.args[0], IntC64(0)), Eq(x.args[0], y.args[0]))
+		case x.op == "str.substr" && y.op == "str.substr" && x.args[0].op == "str.from_int" && y.args[0].op == "str.from_int" &&
+			sameTerm(x.args[1], y.args[1]) && sameTerm(x.args[2], y.args[2]):
+			cs = append(cs, Eq(x.args[0].args[0], y.args[0].args[0]))
+		default:
+			cs = append(cs, Eq(x, y))
+		}
+	}
+	return And(cs...)
 }
